@@ -439,6 +439,8 @@ func heapSort(u *Universe, key string) string {
 		return "(Array Int (Array Int Int))"
 	case "BL", "IT":
 		return "(Array Int Int)"
+	case "ESC":
+		return "(Array Int Bool)"
 	case "X": // X|name|sort : plain ghost/global value
 		return parts[2]
 	case "GA":
@@ -447,4 +449,17 @@ func heapSort(u *Universe, key string) string {
 		return "(Array Int " + parts[2] + ")" // F|q.field|sort
 	}
 	panic("heapSort: unknown key " + key)
+}
+
+// arrKey is the heap key of backing arrays with the given element type. Arrays of different Go element
+// types never alias, so they get separate keys (A|<sort>|<type>).
+func (u *Universe) arrKey(elem types.Type) string {
+	ts := types.TypeString(types.Unalias(elem), func(p *types.Package) string { return p.Name() })
+	if b, ok := elem.Underlying().(*types.Basic); ok && b.Kind() == types.Uint8 {
+		ts = "byte"
+	}
+	if it, ok := elem.Underlying().(*types.Interface); ok && it.NumMethods() == 0 {
+		ts = "any"
+	}
+	return "A|" + u.sortOf(elem) + "|" + sanitize(ts)
 }
